@@ -70,6 +70,8 @@ def make_obj(objkind, span, n):
         c.add_variable('K', [10 + i for i in range(n)])
         c.add_variable('Q', [i % 2 == 0 for i in range(n)])
         c.add_variable('S', [chr(97 + i) for i in range(n)] if n else np.array([], dtype='<U1'))
+        c.add_variable('S5', [('w%d' % i) * 2 for i in range(n)], dtype='<U5')     # strings wider than any fill used here
+        c.add_variable('Z', [complex(i, -i) for i in range(n)], dtype=complex)
         c.add_variable('I32', [100 + i for i in range(n)], dtype=np.int32)
         c.add_variable('U8', [200 + i for i in range(n)], dtype=np.uint8)
         c.add_variable('F32', [0.5 + i for i in range(n)], dtype=np.float32)
@@ -100,7 +102,7 @@ FILLS = [
     ('fill_value_zero', {'fill_value': 0}),
     ('fill_value_false', {'fill_value': False}),
     ('keyword', {'K': -1, 'F': 8.5, 'Y': -2.0, 'status': 'X'}),
-    ('both', {'fill_value': 7, 'S': 'q', 'X': 0.25, 'iterations': 99}),
+    ('both', {'fill_value': 7, 'S': 'q', 'X': 0.25, 'iterations': 99, 'Z': 1 + 2j, 'S5': 'toolong'}),
     ('fractional', {'fill_value': 0.5, 'Q': -0.25, 'I32': 0.75, 'Y': 0.5, 'iterations': 7.9}),   # |v| < 1: truthy for a bool variable, 0 for an integer one
     ('none-keyword', {'fill_value': 1.0, 'X': None, 'F': None, 'K': None, 'Q': None, 'S': None, 'status': None}),   # a keyword given as None: the dtype default, not fill_value
     ('unknown', {'fill_value': 0, 'Nope': 1}),
@@ -114,7 +116,7 @@ def default_fill(dtype, name, is_model):
     if is_model and name == 'iterations':
         return -1
     k = dtype.kind
-    return {'f': float('nan'), 'i': 0, 'u': 0, 'b': False, 'U': ''}[k]
+    return {'f': float('nan'), 'i': 0, 'u': 0, 'b': False, 'U': '', 'c': complex(float('nan'), 0)}[k]
 
 
 def cast_fill(v, dtype):
@@ -127,11 +129,15 @@ def cast_fill(v, dtype):
         return bool(v)
     if k == 'U':
         return str(v)[:dtype.itemsize // 4]
+    if k == 'c':
+        return complex(v)
     raise ValueError(k)
 
 
 def cell_equal(a, b):
     if isinstance(a, float) and isinstance(b, float) and a != a and b != b:
+        return True
+    if isinstance(a, complex) and isinstance(b, complex) and a != a and b != b:
         return True
     return a == b
 
@@ -147,7 +153,7 @@ def run_case(case):
     if objkind != 'container':
         kwargs = {k: v for k, v in kwargs.items() if k in ('fill_value', 'Nope', 'status', 'iterations', 'X', 'Y')}
     else:
-        kwargs = {k: v for k, v in kwargs.items() if k in ('fill_value', 'Nope', 'F', 'K', 'S', 'Q', 'I32', 'U8')}
+        kwargs = {k: v for k, v in kwargs.items() if k in ('fill_value', 'Nope', 'F', 'K', 'S', 'Q', 'I32', 'U8', 'Z', 'S5')}
     if strict is not None:
         kwargs['strict'] = strict
     if case.get('obj_strict'):
